@@ -48,7 +48,7 @@ func gen(tier string, seed int64) []hx.Scenario {
 		}
 	}
 	// resharing
-	shapes := []string{"same", "plus1", "minus1", "disjoint"}
+	shapes := []string{"same", "plus1", "minus1", "disjoint", "plus2"}
 	type sh struct{ n0, t0 int }
 	olds := []sh{{3, 2}, {4, 3}}
 	if tier == "thorough" {
@@ -56,12 +56,19 @@ func gen(tier string, seed int64) []hx.Scenario {
 	}
 	for _, o := range olds {
 		for _, shape := range shapes {
-			n1 := map[string]int{"same": o.n0, "plus1": o.n0 + 1, "minus1": o.n0 - 1, "disjoint": o.n0}[shape]
+			n1 := map[string]int{"same": o.n0, "plus1": o.n0 + 1, "minus1": o.n0 - 1, "disjoint": o.n0, "plus2": o.n0 + 2}[shape]
 			for t1 := n1/2 + 1; t1 <= n1; t1++ {
 				for _, fast := range []bool{false, true} {
 					c := reshCfg{n0: o.n0, t0: o.t0, shape: shape, t1: t1, fault: "none", fast: fast, order: orders[k%3]}
 					k++
 					out = append(out, hx.Scenario{Name: "pedersen-reshare", Cfg: c.String(), Run: func(x *hx.Ctx) { pedReshare(x, c) }})
+					if n1-t1 >= 1 && t1 >= 2 {
+						for who := 0; who < o.n0; who += 2 {
+							c := reshCfg{n0: o.n0, t0: o.t0, shape: shape, t1: t1, fault: "false-complaints", who: who, fast: fast, order: orders[k%3]}
+							k++
+							out = append(out, hx.Scenario{Name: "pedersen-reshare", Cfg: c.String(), Run: func(x *hx.Ctx) { pedReshare(x, c) }})
+						}
+					}
 					if o.n0-o.t0 < 1 {
 						continue
 					}
